@@ -55,6 +55,7 @@ def run_impl(exe, names):
             err, rc = "wall-clock timeout of the harness process", 124
         lines = out.splitlines()
         done = 0
+        timed_out = False
         for ln in lines:
             w = ln.startswith("W ")
             if w:
@@ -62,6 +63,7 @@ def run_impl(exe, names):
             if ln == "T":
                 res.append(("T",))
                 done += 1
+                timed_out = True
                 break
             if ln == "N":
                 res.append(("N", w) if w else ("N",))
@@ -70,13 +72,13 @@ def run_impl(exe, names):
             else:
                 raise RuntimeError("c13 harness printed %r" % ln)
             done += 1
-        if done < len(chunk) and not (res and res[-1] == ("T",) and done == len(lines)):
+        if done < len(chunk) and not timed_out:
             # the process died inside case `done`
             diag = [l for l in err.splitlines() if "runtime error" in l or "ERROR: AddressSanitizer" in l
                     or "SUMMARY" in l or "xrealloc" in l or "xmalloc" in l]
             res.append(("C", "rc=%s %s" % (rc, " | ".join(diag[:3]) or err[-300:])))
             done += 1
-        elif done == 0:
+        if done == 0:
             raise RuntimeError("c13 harness made no progress: rc=%s %s" % (rc, err[-500:]))
         i += done
     return res
